@@ -1577,6 +1577,11 @@ open_common(kdump_ctx_t *ctx)
 				return set_error(ctx, ret,
 						 "Cannot process Xen notes");
 		} else if (!strcmp(name, ".xen_prstatus")) {
+			/* Not all architectures can handle this. */
+			if (!ctx->shared->arch_ops ||
+			    !ctx->shared->arch_ops->process_xen_prstatus)
+				continue;
+
 			ret = flatmap_get_chunk(ctx->shared->flatmap, &fch,
 						sect->size, 0,
 						sect->file_offset);
